@@ -64,6 +64,12 @@ HARMLESS = [
     ("send-reorder-independent", SEND, "        self.timer.ack.pause();\n        self.timer.inactivity.pause();\n        self.state = TransactionState::Suspended;",
      "        self.timer.inactivity.pause();\n        self.timer.ack.pause();\n        self.state = TransactionState::Suspended;", {"C19": 0, "C17": 0}),
     ("send-first-pass-explicit-offset", SEND, "                        self.send_file_segment(None, None, permit, true)?", "                        self.send_file_segment(Some(self.get_progress()), None, permit, true)?", {"C07": 0}),
+    ("recv-extract-finish-helper", RECV, "            self.finalize_receive()?;\n            self.recv_state = RecvState::Finished;\n            self.prepare_finished(None);\n            self.timer.nak.pause();\n        }\n        Ok(())\n    }\n",
+     "            self.finish()?;\n        }\n        Ok(())\n    }\n\n    fn finish(&mut self) -> TransactionResult<()> {\n        self.finalize_receive()?;\n        self.recv_state = RecvState::Finished;\n        self.prepare_finished(None);\n        self.timer.nak.pause();\n        Ok(())\n    }\n", {"C04": 0, "C17": 0}),
+    ("send-extract-pause-helper", SEND, "    pub fn suspend(&mut self) -> TransactionResult<()> {\n        self.timer.ack.pause();\n        self.timer.inactivity.pause();\n        self.state = TransactionState::Suspended;",
+     "    fn pause_timers(&mut self) {\n        self.timer.ack.pause();\n        self.timer.inactivity.pause();\n    }\n\n    pub fn suspend(&mut self) -> TransactionResult<()> {\n        self.pause_timers();\n        self.state = TransactionState::Suspended;", {"C19": 0}),
+    ("send-extract-helper-forgets-inactivity", SEND, "    pub fn suspend(&mut self) -> TransactionResult<()> {\n        self.timer.ack.pause();\n        self.timer.inactivity.pause();\n        self.state = TransactionState::Suspended;",
+     "    fn pause_timers(&mut self) {\n        self.timer.ack.pause();\n    }\n\n    pub fn suspend(&mut self) -> TransactionResult<()> {\n        self.pause_timers();\n        self.state = TransactionState::Suspended;", {"C19": 1}),
     ("timer-comment", TIM, "        let now = Instant::now();\n        while", "        let now = Instant::now();\n        // count the expirations\n        while", {"C17": 0}),
 ]
 
